@@ -181,7 +181,7 @@ PROPS = {
         technique="Lean 4 theorems over an executable model + differential correspondence with the Go code",
     ),
     "C11": dict(
-        modules=["SpatialId.Props.C11", "SpatialId.Props.C11List", "SpatialId.Props.Facts.Quadkey"],
+        modules=["SpatialId.Props.C11", "SpatialId.Props.C11List", "SpatialId.Props.Tie.Shift", "SpatialId.Props.Tie.QkEnc", "SpatialId.Props.Tie.QkDec"],
         families=[("quadkey", 30000, 200000), ("quadkeyExh", 1, 1), ("qv", 4000, 20000), ("qvrt", 2000, 10000)],
         trusted_base=COMMON_TB + ["strconv.FormatInt(n, 4) = base-4 digits, most significant first, no leading zeros"],
         assumptions=["quadkey zoom 1..31 (keys below 2^62)"],
